@@ -367,6 +367,8 @@ def tokenise_complex(text, mode, unit, table, z, p, m1, e1, sr, m2, e2, si):
         return None
     am, ae = exact_abs_bracket(z)
     evs.append(dict(kind='float', m=am, e10=ae, sgn=1, p=p, M=M, **pt))
+    if ang is None and mode in ('polar_rad', 'polar_deg'):
+        ang = '0.00°' if mode == 'polar_deg' else '0.0000'          # no angle written: judged as the angle 0
     if ang is not None:
         deg = ang.endswith('°')
         s = ang[:-1] if deg else ang
@@ -379,8 +381,9 @@ def tokenise_complex(text, mode, unit, table, z, p, m1, e1, sr, m2, e2, si):
         half_turn = 180.0 if deg else math.pi
         if abs(abs(true) - half_turn) < 1e-6 * half_turn:        # +pi and -pi are the same angle
             true = math.copysign(abs(true), -1.0 if s.startswith('-') else 1.0)
+        # resolution of the angle format: degrees with 2 decimals and no angle at all up to 0.01 degree; radians with 4 decimals
         evs.append(dict(kind='angle', digits=int(round(abs(val) * 10 ** nd)), ndec=nd, osgn=-1 if s.startswith('-') else 1, a6=int(round(true * 1e6)),
-                        m=1, e10=0, sgn=1, p=p, M=M, inf=False, oexp=0))
+                        floor2=20000 if deg else 100, m=1, e10=0, sgn=1, p=p, M=M, inf=False, oexp=0))
     return evs
 
 
